@@ -91,13 +91,18 @@ let log_case line =
   (if !bad < 0 then Printf.sprintf "ok %d" n else Printf.sprintf "viol %d" !bad)
   ^ (if !ca then " ca=1" else " ca=0") ^ (if inv_b kind !x then " final=1" else " final=0")
 
-(* repair mode: `ntree tree_id*  nh (ft id len hash)*  nc (ft id len hash)*`
+(* repair mode: `nidx (section id is_tree)*  nh (ft id len hash)*  nc (ft id len hash)*`
+   index entries as read from the index files (section 0 = packs, 1 = packs_to_delete);
    content abstracted to a list of `len` elements all equal to hash (so that size = len).
-   Output: dump of repair_all on that state. *)
+   Output: dump of repair_all_idx (tree packs = get_tree_packs of the model) on that state. *)
 let repair_case line =
   let t = toks line in
-  let nt = ni t in
-  let trees = ntimes nt (fun () -> n_of_int (ni t)) in
+  let nidx = ni t in
+  let idx = ntimes nidx (fun () ->
+    let sec = if ni t = 0 then SecPacks else SecPacksToDelete in
+    let i = ni t in
+    let bt = if ni t = 1 then Tree else Data in
+    { ie_sec = sec; ie_id = n_of_int i; ie_blob = bt }) in
   let rd () =
     let n = ni t in
     ntimes n (fun () ->
@@ -105,7 +110,7 @@ let repair_case line =
       ((ft, n_of_int i), List.init len (fun _ -> n_of_int h))) in
   let h = rd () in
   let c = rd () in
-  let y = repair_all trees { hot = h; cold = c } in
+  let y = repair_all_idx idx { hot = h; cold = c } in
   let side s =
     let l = List.sort compare (List.map (fun ((ft, i), b) -> (ftn ft, int_of_n i, List.length b, (match b with [] -> 0 | v :: _ -> int_of_n v))) s) in
     String.concat "," (List.map (fun (f, i, l, v) -> Printf.sprintf "%d:%d:%d:%d" f i l v) l) in
